@@ -31,6 +31,23 @@ func VerifyFunc(p *Program, fc *FuncContract) (g *Gen, err error) {
 			panic(r)
 		}
 	}()
+	if fc.HasMods {
+		// a declared frame is checked against the frame inferred from the body; where the body's frame
+		// cannot be inferred (dynamic calls) the declared frame is an assumption and is listed
+		raw := p.RawModSetOf(fn)
+		decl := p.DeclaredMods(fc)
+		if !decl.All {
+			if raw.All {
+				g.Assumptions["declared frame `modifies "+strings.Join(fc.Mods, ",")+"` of "+fc.Pkg+"."+fc.Name+" is not verified (its body makes dynamic calls)"] = true
+			} else {
+				for k := range raw.Maps {
+					if !decl.Maps[k] {
+						return nil, fmt.Errorf("frame violation: %s.%s writes %s, which its `modifies` clause does not allow", fc.Pkg, fc.Name, k)
+					}
+				}
+			}
+		}
+	}
 	f := g.newFrame(fn, "", true)
 	entry := g.newBaseHeap("entry")
 	g.assume(app(">=", entry.get("$alloc"), "0"))
